@@ -1057,6 +1057,28 @@ func (g *gen) elabCall(x *Expr, e *env) (Val, error) {
 			return boolVal("(>= (s.ref " + as[0].T + ") " + g.stGet(e.old, "alloctop") + ")"), nil
 		}
 		return boolVal("(>= " + as[0].T + " " + g.stGet(e.old, "alloctop") + ")"), nil
+	case "contains":
+		// contains(s, sub) — sub occurs in s (strings.Contains); decided for literal needles over literals and concatenations
+		if len(x.Args) != 2 {
+			return Val{}, fmt.Errorf("contains(s, sub)")
+		}
+		a, err := g.elab1(x.Args[0], e)
+		if err != nil {
+			return Val{}, err
+		}
+		b, err := g.elab1(x.Args[1], e)
+		if err != nil {
+			return Val{}, err
+		}
+		if a.S != "Str" || b.S != "Str" {
+			return Val{}, fmt.Errorf("contains: string arguments expected")
+		}
+		for lit, name := range g.ctx.strLits {
+			if name == b.T {
+				g.ctx.containsNeedles[lit] = true
+			}
+		}
+		return boolVal("(scontains " + a.T + " " + b.T + ")"), nil
 	case "typeis":
 		// typeis(x, "pkg.T") — dynamic type of an interface value
 		if len(x.Args) != 2 || x.Args[1].Op != "str" {
